@@ -278,7 +278,7 @@ Ltac decide_eqb x y :=
 
 Lemma push_bytes_some d : d <> [] -> N.of_nat (length d) < two32 ->
   exists hdr, push_bytes d = Some (hdr ++ d) /\
-    exists c rest, hdr = c :: rest /\ 1 <= c <= OP_PUSHDATA4.
+    exists c rest, hdr = c :: rest /\ 1 <= c <= OP_PUSHDATA4 /\ (length rest <= 4)%nat.
 Proof.
   intros Hne Hl. unfold push_bytes.
   assert (Hn : N.of_nat (length d) <> 0) by (destruct d; [congruence|simpl; lia]).
@@ -286,15 +286,17 @@ Proof.
   set (n := N.of_nat (length d)) in *.
   destruct (Z.leb_spec (Z.of_N n) (Z.of_N OP_PUSHBYTES75 + 1 - Z.of_N OP_PUSHBYTES1)) as [A|A].
   - eexists [_]. split; [reflexivity|]. eexists _, []. split; [reflexivity|].
-    unfold uint8 in *. op_consts. lia.
+    unfold uint8 in *. op_consts. simpl length. lia.
   - destruct (N.ltb_spec n 256).
     { exists (OP_PUSHDATA1 :: write_uint8 n). split; [rewrite <- app_comm_cons; reflexivity|].
-      eexists _, _. split; [reflexivity|]. op_consts. lia. }
+      eexists _, _. split; [reflexivity|]. op_consts. simpl length. lia. }
     destruct (N.ltb_spec n 65536).
     { exists (OP_PUSHDATA2 :: write_uint16 n). split; [rewrite <- app_comm_cons; reflexivity|].
-      eexists _, _. split; [reflexivity|]. op_consts. lia. }
+      eexists _, _. split; [reflexivity|]. unfold write_uint16. rewrite le_encode_length. op_consts.
+      replace UINT16_SIZE with 2%nat by reflexivity. lia. }
     exists (OP_PUSHDATA4 :: write_uint32 n). split; [rewrite <- app_comm_cons; reflexivity|].
-    eexists _, _. split; [reflexivity|]. op_consts. lia.
+    eexists _, _. split; [reflexivity|]. unfold write_uint32. rewrite le_encode_length. op_consts.
+    replace UINT32_SIZE with 4%nat by reflexivity. lia.
 Qed.
 
 Lemma read_bytes_at s d enc r :
@@ -455,19 +457,19 @@ Lemma read_num_at s v enc r : v <= 65535 -> push_num v = Some enc -> src_at s (e
 Proof.
   intros Hv Hp Hs. unfold read_num.
   destruct (N.eq_dec v 0) as [->|Hnz].
-  - injection Hp as <-. simpl app in Hs.
+  - injection Hp as <-. cbn [app] in Hs.
     rewrite (peek_opcode_at _ _ _ Hs). rewrite N.eqb_refl.
     eexists. split; [reflexivity|]. eapply skip_opcode_at; exact Hs.
   - destruct (N.le_gt_cases v 16) as [Hs16|Hb].
-    + rewrite push_num_small in Hp by lia. injection Hp as <-. simpl app in Hs.
+    + rewrite push_num_small in Hp by lia.
+      assert (Eenc : enc = [OP_PUSH1 + v - 1]) by congruence. subst enc. clear Hp. cbn [app] in Hs.
       rewrite (peek_opcode_at _ _ _ Hs).
       replace (OP_PUSH1 + v - 1 =? OP_PUSH0) with false by (symmetry; apply N.eqb_neq; op_consts; lia).
-      match goal with |- ?G => idtac G end.
       rewrite small_num_push by lia.
       eexists. split; [reflexivity|]. eapply skip_opcode_at; exact Hs.
     + rewrite push_num_big in Hp by lia.
       destruct (neo_big v ltac:(lia)) as (Hne & Hlen & Hval).
-      destruct (push_bytes_some (neo_of_N v) Hne) as (hdr & Hpb & c & rest & -> & Hc).
+      destruct (push_bytes_some (neo_of_N v) Hne) as (hdr & Hpb & c & rest & -> & Hc & _).
       { unfold two32. lia. }
       rewrite Hpb in Hp. injection Hp as <-.
       assert (Hs0 := Hs). rewrite <- !app_comm_cons in Hs0.
@@ -480,3 +482,167 @@ Proof.
       2:{ symmetry. apply orb_false_iff. split; [apply Z.ltb_ge|apply Z.leb_gt]; lia. }
       rewrite N2Z.id. exists s'. split; [reflexivity|exact Hs'].
 Qed.
+
+(** * 5. Parsing what the builder wrote *)
+
+Lemma push_all_app a b ea eb :
+  push_all a = Some ea -> push_all b = Some eb -> push_all (a ++ b) = Some (ea ++ eb).
+Proof.
+  revert ea. induction a as [|d a IH]; intros ea Ha Hb; simpl in *.
+  - injection Ha as <-. exact Hb.
+  - destruct (push_bytes d) as [x|]; [|discriminate]. simpl in *.
+    destruct (push_all a) as [y|]; [|discriminate]. simpl in *.
+    injection Ha as <-. rewrite (IH y eq_refl Hb). simpl. rewrite app_assoc. reflexivity.
+Qed.
+
+Lemma push_all_app_inv a b e :
+  push_all (a ++ b) = Some e -> exists ea eb, push_all a = Some ea /\ push_all b = Some eb /\ e = ea ++ eb.
+Proof.
+  revert e. induction a as [|d a IH]; intros e H; simpl in *.
+  - exists [], e. auto.
+  - destruct (push_bytes d) as [x|]; [|discriminate]. simpl in *.
+    destruct (push_all (a ++ b)) as [y|] eqn:E; [|discriminate]. simpl in *.
+    injection H as <-. destruct (IH y eq_refl) as (ea & eb & -> & Hb & ->).
+    exists (x ++ ea), eb. simpl. rewrite app_assoc. auto.
+Qed.
+
+Lemma read_buffers_S f s :
+  read_buffers (S f) s =
+  match peek_opcode s with
+  | inr e => inr e
+  | inl (code, s0) =>
+    if code =? OP_CHECKMULTISIG then inl ([], skip_opcode s0)
+    else if code =? OP_PUSH0 then
+      match read_buffers f (skip_opcode s0) with inr e => inr e | inl (bs, s2) => inl (neo_of_N 0 :: bs, s2) end
+    else match small_num code with
+    | Some num =>
+      match read_buffers f (skip_opcode s0) with inr e => inr e | inl (bs, s2) => inl (neo_of_N num :: bs, s2) end
+    | None =>
+      match read_bytes s0 with
+      | inr e => inr e
+      | inl (b, s1) =>
+        match read_buffers f s1 with inr e => inr e | inl (bs, s2) => inl (b :: bs, s2) end
+      end
+    end
+  end.
+Proof. reflexivity. Qed.
+
+Section WithDeser.
+Variable deser : bytes -> option pubkey.
+
+(** A key the script functions can handle: DeserializePublicKey inverts SerializePublicKey on it,
+    and its serialization is non-empty and shorter than 2^32 bytes. *)
+Definition key_ok (k : pubkey) : Prop :=
+  deser (pk_ser k) = Some k /\ pk_ser k <> [] /\ N.of_nat (length (pk_ser k)) < two32.
+
+Lemma push_all_ok ks : Forall key_ok ks -> exists enc, push_all (map pk_ser ks) = Some enc.
+Proof.
+  induction 1 as [|k ks (Hd & Hne & Hl) _ (enc & IH)]; simpl; [eauto|].
+  destruct (push_bytes_some _ Hne Hl) as (hdr & -> & _). simpl. rewrite IH. simpl. eauto.
+Qed.
+
+Lemma read_pubkey_at s k enc r : key_ok k -> push_bytes (pk_ser k) = Some enc -> src_at s (enc ++ r) ->
+  exists s', read_pubkey deser s = inl (k, s') /\ src_at s' r.
+Proof.
+  intros (Hd & Hne & Hl) Hp Hs.
+  destruct (read_bytes_at s _ _ r Hp Hl Hs) as (s' & E & Hs').
+  exists s'. split; [|exact Hs']. unfold read_pubkey. rewrite E, Hd. reflexivity.
+Qed.
+
+Lemma read_pubkeys_at ks : forall fuel s enc r,
+  Forall key_ok ks -> push_all (map pk_ser ks) = Some enc -> src_at s (enc ++ r) ->
+  (length ks < fuel)%nat ->
+  exists s', read_pubkeys deser fuel s (N.of_nat (length ks)) = inl (ks, s') /\ src_at s' r.
+Proof.
+  induction ks as [|k ks IH]; intros fuel s enc r Hk Hp Hs Hf;
+    (destruct fuel as [|f]; [simpl in Hf; lia|]).
+  - simpl in Hp. injection Hp as <-. exists s. split; [reflexivity|exact Hs].
+  - inversion Hk as [|? ? Hk1 Hk2]; subst. simpl in Hp.
+    destruct (push_bytes (pk_ser k)) as [a|] eqn:Ea; [|discriminate]. simpl in Hp.
+    destruct (push_all (map pk_ser ks)) as [b|] eqn:Eb; [|discriminate]. simpl in Hp.
+    injection Hp as <-. rewrite <- app_assoc in Hs.
+    destruct (read_pubkey_at s k a (b ++ r) Hk1 Ea Hs) as (s1 & E1 & Hs1).
+    destruct (IH f s1 b r Hk2 eq_refl Hs1) as (s2 & E2 & Hs2); [simpl in Hf; lia|].
+    exists s2. split; [|exact Hs2].
+    cbn [read_pubkeys length].
+    replace (N.of_nat (S (length ks)) =? 0) with false by (symmetry; apply N.eqb_neq; lia).
+    rewrite E1. replace (N.of_nat (S (length ks)) - 1) with (N.of_nat (length ks)) by lia.
+    rewrite E2. reflexivity.
+Qed.
+
+Lemma read_buffers_end f s r : src_at s (OP_CHECKMULTISIG :: r) ->
+  exists s', read_buffers (S f) s = inl ([], s') /\ src_at s' r.
+Proof.
+  intro Hs. rewrite read_buffers_S, (peek_opcode_at _ _ _ Hs), N.eqb_refl.
+  eexists. split; [reflexivity|]. eapply skip_opcode_at; exact Hs.
+Qed.
+
+Lemma read_buffers_count f s n cn r : n <= 65535 -> push_num n = Some cn ->
+  src_at s (cn ++ OP_CHECKMULTISIG :: r) ->
+  exists s', read_buffers (S (S f)) s = inl ([neo_of_N n], s') /\ src_at s' r.
+Proof.
+  intros Hn Hp Hs. rewrite read_buffers_S.
+  destruct (N.eq_dec n 0) as [->|Hnz].
+  - assert (cn = [OP_PUSH0]) by (unfold push_num in Hp; simpl in Hp; congruence). subst cn. cbn [app] in Hs.
+    rewrite (peek_opcode_at _ _ _ Hs).
+    replace (OP_PUSH0 =? OP_CHECKMULTISIG) with false by reflexivity. rewrite N.eqb_refl.
+    destruct (read_buffers_end f (skip_opcode s) r) as (s' & E & Hs'); [eapply skip_opcode_at; exact Hs|].
+    rewrite E. exists s'. split; [reflexivity|exact Hs'].
+  - destruct (N.le_gt_cases n 16) as [Hs16|Hb].
+    + rewrite push_num_small in Hp by lia.
+      assert (cn = [OP_PUSH1 + n - 1]) by congruence. subst cn. clear Hp. cbn [app] in Hs.
+      rewrite (peek_opcode_at _ _ _ Hs).
+      replace (OP_PUSH1 + n - 1 =? OP_CHECKMULTISIG) with false by (symmetry; apply N.eqb_neq; op_consts; lia).
+      replace (OP_PUSH1 + n - 1 =? OP_PUSH0) with false by (symmetry; apply N.eqb_neq; op_consts; lia).
+      rewrite small_num_push by lia.
+      destruct (read_buffers_end f (skip_opcode s) r) as (s' & E & Hs'); [eapply skip_opcode_at; exact Hs|].
+      rewrite E. exists s'. split; [reflexivity|exact Hs'].
+    + rewrite push_num_big in Hp by lia.
+      destruct (neo_big n ltac:(lia)) as (Hne & Hlen & _).
+      destruct (push_bytes_some (neo_of_N n) Hne) as (hdr & Hpb & c & rest & -> & Hc & _); [unfold two32; lia|].
+      assert (cn = (c :: rest) ++ neo_of_N n) by congruence. subst cn. clear Hp.
+      assert (Hs0 := Hs). rewrite <- !app_comm_cons in Hs0.
+      rewrite (peek_opcode_at _ _ _ Hs0).
+      replace (c =? OP_CHECKMULTISIG) with false by (symmetry; apply N.eqb_neq; op_consts; lia).
+      replace (c =? OP_PUSH0) with false by (symmetry; apply N.eqb_neq; op_consts; lia).
+      rewrite small_num_none by (op_consts; lia).
+      destruct (read_bytes_at s (neo_of_N n) _ (OP_CHECKMULTISIG :: r) Hpb) as (s1 & Er & Hs1); [unfold two32; lia|exact Hs|].
+      rewrite Er.
+      destruct (read_buffers_end f s1 r Hs1) as (s' & E & Hs').
+      rewrite E. exists s'. split; [reflexivity|exact Hs'].
+Qed.
+
+Lemma read_buffers_at ks : forall fuel s enc n cn r,
+  Forall key_ok ks -> push_all (map pk_ser ks) = Some enc ->
+  n <= 65535 -> push_num n = Some cn ->
+  src_at s (enc ++ cn ++ OP_CHECKMULTISIG :: r) -> (length ks + 1 < fuel)%nat ->
+  exists s', read_buffers fuel s = inl (map pk_ser ks ++ [neo_of_N n], s') /\ src_at s' r.
+Proof.
+  induction ks as [|k ks IH]; intros fuel s enc n cn r Hk Hp Hn Hc Hs Hf.
+  - simpl in Hp. injection Hp as <-. cbn [app] in Hs.
+    destruct fuel as [|[|f]]; try (simpl in Hf; lia).
+    apply (read_buffers_count f s n cn r Hn Hc Hs).
+  - destruct fuel as [|f]; [lia|].
+    inversion Hk as [|? ? Hk1 Hk2]; subst. simpl in Hp.
+    destruct (push_bytes (pk_ser k)) as [a|] eqn:Ea; [|discriminate]. simpl in Hp.
+    destruct (push_all (map pk_ser ks)) as [b|] eqn:Eb; [|discriminate]. simpl in Hp.
+    injection Hp as <-. rewrite <- app_assoc in Hs.
+    destruct Hk1 as (Hd & Hne & Hl).
+    destruct (push_bytes_some _ Hne Hl) as (hdr & Hpb & c & rest & -> & Hcc & _).
+    assert (a = (c :: rest) ++ pk_ser k) by congruence. subst a.
+    assert (Hs0 := Hs). rewrite <- !app_comm_cons in Hs0.
+    rewrite read_buffers_S, (peek_opcode_at _ _ _ Hs0).
+    replace (c =? OP_CHECKMULTISIG) with false by (symmetry; apply N.eqb_neq; op_consts; lia).
+    replace (c =? OP_PUSH0) with false by (symmetry; apply N.eqb_neq; op_consts; lia).
+    rewrite small_num_none by (op_consts; lia).
+    destruct (read_bytes_at s (pk_ser k) _ _ Hpb Hl Hs) as (s1 & Er & Hs1). rewrite Er.
+    destruct (IH f s1 b n cn r Hk2 eq_refl Hn Hc Hs1) as (s2 & E2 & Hs2); [simpl in Hf; lia|].
+    rewrite E2. exists s2. split; [reflexivity|exact Hs2].
+Qed.
+
+Lemma deser_all_sers ks : Forall key_ok ks -> deser_all deser (map pk_ser ks) = Some ks.
+Proof.
+  induction 1 as [|k ks (Hd & _) _ IH]; simpl; [reflexivity|]. rewrite Hd. simpl. rewrite IH. reflexivity.
+Qed.
+
+End WithDeser.
